@@ -60,9 +60,11 @@ def _detect_ssc(
     try:
         first_param = next(parser)
     except StopIteration:
+        if isinstance(file, TextIOWrapper) or isinstance(file, TextIO):
+            file.seek(0)
         return (file, False)
 
-    if isinstance(file, TextIO):
+    if isinstance(file, TextIOWrapper) or isinstance(file, TextIO):
         file.seek(0)
 
     return (file, first_param.key is not None and first_param.key.upper() == "VERSION")
@@ -78,7 +80,7 @@ def load(file: Union[TextIO, Iterator[str]], strict: bool = True) -> Simfile:
     the file is treated as an SSC simfile; otherwise, it's treated as
     an SM simfile.
     """
-    file, is_ssc = _detect_ssc(file)
+    file, is_ssc = _detect_ssc(file, strict=strict)
     if is_ssc:
         return SSCSimfile(file=file, strict=strict)
     else:
